@@ -202,29 +202,47 @@ def keys_of(env):
     return env['_it']
 
 
+class Base:
+    """the state the sweep starts from: the tables at function entry, or (update()) at loop entry, captured in ghosts"""
+    def __init__(self, old, ghost):
+        if getattr(ghost, 'base_dom', None) is not None:
+            self.dom_, self.val_, self.g_ack, self.g_to = ghost.base_dom, ghost.base_val, ghost.base_g_ack, ghost.base_g_to
+        else:
+            pa = old.self.pending_acks
+            self.dom_, self.val_, self.g_ack, self.g_to = pa.dom, pa.val, old.ghost.g_ack, old.ghost.g_to
+
+    def has(self, k):
+        return z3.Select(self.dom_, k)
+
+    def at(self, k):
+        return z3.Select(self.val_, k)
+
+
 def sweep_invariants(acked, timed_out):
     """invariants of `for seqnum in list(self.pending_acks)`, for the Skolem datagram s with witness index js (K[js] = s):
     acked(env) / timed_out(env): z3 Bool conditions evaluated on the ENTRY state for s (the branch conditions of the body)"""
     def handled(old, self, ghost, s, a, t):
         st = S.term(s)
-        ga, gt, ga0, gt0 = ghost.g_ack, ghost.g_to, old.ghost.g_ack, old.ghost.g_to
+        B = Base(old, ghost)
+        ga, gt, ga0, gt0 = ghost.g_ack, ghost.g_to, B.g_ack, B.g_to
         return z3.And(
             z3.Implies(a, z3.And(z3.Not(dom(self.pending_acks, st)), z3.Select(ga, st) == z3.Select(ga0, st) + 1, z3.Select(gt, st) == z3.Select(gt0, st))),
             z3.Implies(z3.And(z3.Not(a), t), z3.And(z3.Not(dom(self.pending_acks, st)), z3.Select(gt, st) == z3.Select(gt0, st) + 1, z3.Select(ga, st) == z3.Select(ga0, st))),
             z3.Implies(z3.And(z3.Not(a), z3.Not(t)), untouched(old, self, ghost, st)))
 
     def untouched(old, self, ghost, st):
-        return z3.And(dom(self.pending_acks, st), val(self.pending_acks, st) == val(old.self.pending_acks, st),
-                      z3.Select(ghost.g_ack, st) == z3.Select(old.ghost.g_ack, st), z3.Select(ghost.g_to, st) == z3.Select(old.ghost.g_to, st))
+        B = Base(old, ghost)
+        return z3.And(dom(self.pending_acks, st), val(self.pending_acks, st) == B.at(st),
+                      z3.Select(ghost.g_ack, st) == z3.Select(B.g_ack, st), z3.Select(ghost.g_to, st) == z3.Select(B.g_to, st))
 
     inv = {
         'processed-keys-handled': lambda old, self, ghost, s, js, _i, _it, **kw: S.bool(z3.Implies(
             z3.And(0 <= S.term(js), S.term(js) < _it.n, z3.Select(_it.arr, S.term(js)) == S.term(s), S.term(_i, 'int') > S.term(js)),
-            handled(old, self, ghost, s, acked(old, s), timed_out(old, s)))),
+            handled(old, self, ghost, s, acked(old, s, ghost), timed_out(old, s, ghost)))),
         'unprocessed-keys-untouched': lambda old, self, ghost, s, js, _i, _it: S.bool(z3.Implies(
             z3.And(0 <= S.term(js), S.term(js) < _it.n, z3.Select(_it.arr, S.term(js)) == S.term(s), S.term(_i, 'int') <= S.term(js)),
             untouched(old, self, ghost, S.term(s)))),
-        'no-new-tickets': lambda old, self, s: S.bool(z3.Implies(z3.Not(dom(old.self.pending_acks, S.term(s))), z3.Not(dom(self.pending_acks, S.term(s))))),
+        'no-new-tickets': lambda old, self, ghost, s: S.bool(z3.Implies(z3.Not(Base(old, ghost).has(S.term(s))), z3.Not(dom(self.pending_acks, S.term(s))))),
         'times-unchanged': lambda old, self: S.eq(self.last_recv_time, old.self.last_recv_time) & S.eq(self.outgoing_timeout, old.self.outgoing_timeout),
     }
     return inv, handled, untouched
@@ -267,11 +285,11 @@ def sweep_setup(E, hdr=False):
 
 
 # ---- _handle_ack_bits
-def hab_acked(old, s):
+def hab_acked(old, s, ghost=None):
     return ops.bterm(AckedBy(old.hdr.ack, old.hdr.ack_bits, S.ival(s)))
 
 
-def hab_timed_out(old, s):
+def hab_timed_out(old, s, ghost=None):
     return S.term(old.self.last_recv_time, 'real') - val(old.self.pending_acks, S.term(s)) > S.term(old.self.outgoing_timeout, 'real')
 
 
@@ -305,11 +323,11 @@ class _:
 
 
 # ---- _check_timeout(t0): every datagram open for at least outgoing_timeout is resolved as timed out (P3), nothing else
-def never(old, s):
+def never(old, s, ghost=None):
     return z3.BoolVal(False)
 
 
-def ct_timed_out(old, s):
+def ct_timed_out(old, s, ghost=None):
     return S.term(old.t0, 'real') - val(old.self.pending_acks, S.term(s)) >= S.term(old.self.outgoing_timeout, 'real')
 
 
@@ -334,3 +352,74 @@ class _:
         'no-new-tickets': lambda old, self, s: S.bool(z3.Implies(z3.Not(dom(old.self.pending_acks, S.term(s))), z3.Not(dom(self.pending_acks, S.term(s))))),
     }
     modifies = [p for p in SWEEP_HAVOC if not p.startswith('ghost.')]
+
+
+# ---- ServerClientConnection.update: the server-side sweep (same obligations as _check_timeout, strict comparison)
+def su_build_model(ip, self):
+    """_build_packet as used by update(): its contract is verified separately (c09_packing); here: some packet or None,
+    the timing tables are not resolved by it (it only ADDS the ticket of the new datagram, whose age is 0)"""
+    from pyvc.heap import havoc_path
+    t = ip.call(self.attrs['clock'], [], {})
+    ip.state.ghost['t_build'] = S.term(t, 'real')
+    if ip.ctx.choose(2) == 1:
+        return None
+    roots = {'self': self}
+    for p in ('self.outgoing_messages', 'self.pending_retry_msg', 'self.seq_sending', 'self.pending_callbacks', 'self.pending_retry',
+              'self.last_send_time', 'self.last_send_keep_alive_time', 'self.stats.assembled'):
+        havoc_path(ip, roots, p)
+    # the new ticket: keyed by the new sequence number, stamped with the build time
+    pa = self.attrs['pending_acks']
+    k = S.term(self.attrs['seq_sending'], 'int')
+    ip.ctx.assume(z3.And(k >= 1, k <= S.M, z3.Not(z3.Select(pa.dom, k))))
+    if pa.size is not None:
+        pa.size = pa.size + 1
+    pa.dom = z3.Store(pa.dom, k, True)
+    pa.val = z3.Store(pa.val, k, ip.state.ghost['t_build'])
+    ip.state.ghost['new_ticket'] = k
+    pkt = Obj(ip.repo.cls('connection.Packet'), {'hdr': None, 'msg': b'', 'msgs': PyList([])})
+    return pkt
+
+
+def total_size_model(ip, self, key):
+    return Sym(ip.ctx.fresh('total_size', z3.IntSort()), 'int')
+
+
+def su_timed_out(old, s, ghost=None):
+    B = Base(old, ghost)
+    return ghost.t_sweep - B.at(S.term(s)) > S.term(old.self.outgoing_timeout, 'real')
+
+
+_inv_su, _handled_su, _ = sweep_invariants(never, su_timed_out)
+
+
+def su_ghost_init(ip, frame, env):
+    """the sweep starts from the tables as they are after _build_packet (which only added the new ticket)"""
+    g = ip.state.ghost
+    pa = env['self'].pending_acks
+    g['base_dom'], g['base_val'], g['base_g_ack'], g['base_g_to'] = pa.dom, pa.val, g['g_ack'], g['g_to']
+    g['t_sweep'] = g['clock_last']
+    sweep_ghost_init(ip, frame, env)
+
+
+@contract('connection.ServerClientConnection.update', props=['C07', 'C05', 'C12'])
+class _:
+    def setup(E):
+        self = sweep_setup(E)
+        self.cls = E.cls(SCC)
+        self.attrs.update(ctxt=None, token=E.int('token'), session_key=None, session_salt=None, server_public_key=None, version=1)
+        E.ghost('ack_hdr', (0, 0))
+        for g in ('base_dom', 'base_val', 'base_g_ack', 'base_g_to', 't_sweep'):
+            E.ghost(g, None)
+        E.instance('k', lambda env: E.ctx.skolems['s'])
+        return dict(self=self)
+    skolems = {'s': 'int', 'js': 'int', 'k': 'int', 'q': 'int', 'r': 'int'}
+    uses = HANDLE_USES
+    hooks = {'symfn': callback_effects, 'model:connection.ConnectionBase._build_packet': su_build_model,
+             'model:connection.Packet.total_size': total_size_model}
+    loops = {0: LoopSpec(invariant=fix_kw(_inv_su), havoc=SWEEP_HAVOC, instances=sweep_instances, ghost_init=su_ghost_init, label='sweep')}
+    ensures = {
+        # truthfulness + P3: after the sweep every datagram that was open when it started is timed out iff its age exceeds the timeout
+        'expired-datagrams-time-out-others-stay-open': lambda old, self, ghost, s: S.bool(z3.Implies(
+            Base(old, ghost).has(S.term(s)), _handled_su(old, self, ghost, s, never(old, s, ghost), su_timed_out(old, s, ghost))))
+        if ghost.base_dom is not None else True,
+    }
